@@ -22,7 +22,8 @@ MODULES = {
     "C12": ["contracts.externals", "contracts.types_named", "contracts.application", "contracts.codec_headers", "contracts.ezsp_protocol", "contracts.ezsp", "contracts.app_send", "contracts.ezsp_accessors"],
     "C20": ["contracts.externals", "contracts.thread"],
     "C02": ["contracts.externals", "contracts.ash", "contracts.ash_wire", "contracts.ash_rx"],
-    "C14": ["contracts.externals", "contracts.types_named", "contracts.codec_headers", "contracts.ezsp_protocol", "contracts.ezsp_accessors", "contracts.app_network"],
+    "C14": ["contracts.externals", "contracts.types_named", "contracts.codec_headers", "contracts.ezsp_protocol", "contracts.ezsp_accessors", "contracts.app_network",
+            "contracts.ezsp", "contracts.ezsp_events"],
     "C03": ["contracts.externals", "contracts.ash", "contracts.ash_wire"],
 }
 
